@@ -157,6 +157,15 @@ func (k Keeper) EditToken(
 			)
 		}
 
+		// a stored token must keep passing Token.Validate, which genesis import enforces
+		if maxSupply < token.InitialSupply {
+			return errorsmod.Wrapf(
+				types.ErrInvalidMaxSupply,
+				"max supply must not be less than the initial supply %d",
+				token.InitialSupply,
+			)
+		}
+
 		token.MaxSupply = maxSupply
 	}
 
